@@ -114,4 +114,87 @@ theorem spawn_reply (n : Nat) (prog : Prog) (req : Nat) (hn : 0 < n) (hwf : Prog
     rw [h.spawnNotified, h.spawned, (Inert.facts (K := fun _ => True) (h.inert _)).2.2.1]; rfl
   · exact h.spawnReply c
 
+/-- `notify_spawn` re-queues the caller iff it was parked in `spawning` (and always hands it the
+pid): the handler on an arbitrary state. -/
+theorem notify_spawn_requeues_iff_parked (s : Sys) (i : Wid) (caller newPid : Pid) (x : Proc)
+    (hx : (s.wk i).procs caller = some x) :
+    let s' := handleCmd s i (.notifySpawn caller newPid)
+    ((s'.wk i).queue = if caller ∈ (s.wk i).spawning then (s.wk i).queue ++ [caller] else (s.wk i).queue) ∧
+    caller ∉ (s'.wk i).spawning ∧
+    (s'.wk i).procs caller = some { x with regs := x.regs ++ [newPid], pc := x.pc + 1, spawnIssued := false } := by
+  by_cases hsp : caller ∈ (s.wk i).spawning
+  · simp [handleCmd, handleCmdWith, hx, hsp, mem_serase]
+  · simp [handleCmd, handleCmdWith, hx, hsp, mem_serase]
+
+/-! ### examples: the hypotheses are satisfiable by non-trivial reachable states -/
+
+/-- main spawns a child that sends it one message -/
+def exProg : Prog := [[.spawn 1 [0], .select [.recv .any]], [.send 1 1 0]]
+def exCs : List Choice := [.worker 0 100 5 [] [], .env [100, 100], .worker 1 100 5 [] [], .env [100, 100]]
+
+theorem exProg_wf : ProgWF exProg := by
+  refine ⟨by decide, ?_⟩
+  intro sc hsc fn pass h
+  simp [exProg] at hsc
+  rcases hsc with rfl | rfl <;> simp at h
+  obtain ⟨rfl, _⟩ := h; decide
+
+/-- a reachable state with a message in flight in the receiver's command queue, behind the spawn
+reply of the same caller -/
+example : sel 1 0 (reach 2 exProg 1 exCs).sent = [{ src := 1, tag := 1, seq := 0 }]
+    ∧ selC 1 0 ((reach 2 exProg 1 exCs).cmdQ 0) = [{ src := 1, tag := 1, seq := 0 }]
+    ∧ sel 1 0 (reach 2 exProg 1 exCs).appended = []
+    ∧ notifyC 0 ((reach 2 exProg 1 exCs).cmdQ 0) = [1]
+    ∧ spawnedOf 0 (reach 2 exProg 1 exCs).spawned = [1] := by decide
+
+/-- … and after worker 0's next step the message is in the mailbox history and the spawner has its pid -/
+example : sel 1 0 (reach 2 exProg 1 (exCs ++ [.worker 0 100 5 [] []])).appended = [{ src := 1, tag := 1, seq := 0 }]
+    ∧ notifiedOf 0 (reach 2 exProg 1 (exCs ++ [.worker 0 100 5 [] []])).spawnNotified = [1] := by decide
+
+/-! ### the theorems depend on the two repairs (witnesses of the earlier rules) -/
+
+/-- main: `c1 = @{ ! [50] }, c2 = @{ [2,0] me }, ! [c1, #recv], c3 = @{}, ! [c3]` -/
+def staleProg : Prog :=
+  [[.spawn 1 [], .spawn 2 [0], .select [.proc 1, .recv .any], .spawn 3 [], .select [.proc 3]],
+   [.select [.timeout 50]], [.send 1 2 0], []]
+
+def staleCs : List Choice :=
+  [.worker 0 100 5 [] [], .env [100, 100], .worker 0 100 5 [] [], .env [100, 100], .worker 0 100 5 [] [],
+   .worker 0 100 5 [] [], .env [100, 100], .worker 0 100 5 [] [], .worker 0 100 5 [] [], .worker 1 100 5 [] [],
+   .env [0, 100], .worker 0 100 5 [] []]
+
+/-- F16 (repaired by c08a680).  With `mark_active` on an empty await answer, a process parked in
+`spawning` is re-queued by the late answer of a select that already completed through a message; its
+`Spawn` runs a second time and it fails — although no script contains `fail`.  With the current rule
+(`wake_selecting`) the same schedule leaves it parked, waiting for its spawn reply. -/
+theorem stale_answer_wakes_spawner :
+    (((runWith Rules.markActiveOnEmpty (Sys.init 2 staleProg 1) staleCs).wk 0).procs 0).map (·.result) = some (some .err)
+    ∧ (((run (Sys.init 2 staleProg 1) staleCs).wk 0).procs 0).map (·.result) = some none
+    ∧ 0 ∈ ((run (Sys.init 2 staleProg 1) staleCs).wk 0).spawning := by decide
+
+/-- awaiter 0 awaits `[1, 3, 2]`; 1 and 3 live on worker 1, 2 on worker 0 -/
+def lostProg : Prog :=
+  [[.spawn 1 [], .spawn 2 [], .spawn 3 [], .select [.proc 1, .proc 3, .proc 2]], [], [.select [.recv .any]],
+   [.select [.timeout 5]]]
+
+def lostCs : List Choice :=
+  [.worker 0 100 9 [] [], .env [100, 100], .worker 0 100 9 [] [], .env [100, 100], .worker 0 100 9 [] [],
+   .worker 0 100 9 [] [], .worker 1 100 9 [] [], .env [100, 100], .worker 1 100 9 [] [], .worker 0 100 9 [] [],
+   .env [100, 100], .worker 1 100 9 [] [], .tick 10, .worker 1 100 9 [] [], .env [0, 100], .worker 0 100 9 [] [],
+   .env [100, 100], .worker 0 100 9 [] []]
+
+/-- F8 (repaired by b8eb814), the 3-target / 2-worker schedule.  With `responses.insert` (replace),
+worker 1's later completion report for 3 replaces its pending answer `{1: done, 3: pending}` while
+worker 0 has not answered yet: process 1's result is reported but never reaches the awaiter, whose
+select yields the result of 3 although 1 has priority.  With merged answers (the code now) the same
+schedule delivers both and the select yields the result of 1. -/
+theorem replace_loses_await_answer :
+    let bad := runWith Rules.replaceAnswers (Sys.init 2 lostProg 1) lostCs
+    let good := run (Sys.init 2 lostProg 1) lostCs
+    (bad.reported = [(0, 1), (0, 3)] ∧ bad.learned = [(0, 3)]
+      ∧ ((bad.wk 0).procs 0).map (·.result) = some (some (.ok [-1, 0, -1, 3, -1, -2, -2, -2]))
+      ∧ (∀ w, w < 2 → bad.cmdQ w = [] ∧ (bad.evtQ w).all (fun e => match e with | .resultResp _ _ => true | _ => false)))
+    ∧ (good.reported = [(0, 1), (0, 3)] ∧ good.learned = [(0, 3), (0, 1)]
+      ∧ ((good.wk 0).procs 0).map (·.result) = some (some (.ok [-1, 0, -1, 1, -2, -2]))) := by decide
+
 end C04
